@@ -112,6 +112,49 @@ pub proof fn lemma_run_split<T, M: Method<Input = T>>(a: M, xs: Seq<T>, ys: Seq<
 		}
 //@end
 
+// ------------------------------------------------------------------ Sequence::apply (core/sequence.rs): in-place run
+//@extract src/core/sequence.rs trait[Sequence]::apply pub
+//@sig pub fn seq_apply<T, M: Method<Input = T, Output = T>>(seq: &mut [T], method: &mut M)
+	requires old(method).inv(), inputs_ok::<T, M>(old(seq)@)
+	ensures final(method).inv(), final(seq)@.len() == old(seq)@.len(), run(*old(method), old(seq)@, final(seq)@, *final(method)),
+//@src self.as_mut().iter_mut() ==> seq
+//@hint start
+	proof { lemma_run_empty::<T, M>(*method); assert(seq@.subrange(0, 0) =~= Seq::<T>::empty()); }
+//@hint chain 0
+		invariant_except_break
+			idx0__ <= seq@.len(), seq@.len() == old(seq)@.len(), method.inv(), inputs_ok::<T, M>(old(seq)@),
+			seq@.subrange(idx0__ as int, seq@.len() as int) =~= old(seq)@.subrange(idx0__ as int, seq@.len() as int),
+			run(*old(method), old(seq)@.subrange(0, idx0__ as int), seq@.subrange(0, idx0__ as int), *method),
+		ensures
+			seq@.len() == old(seq)@.len(), method.inv(), run(*old(method), old(seq)@, seq@, *method),
+		decreases seq@.len() - idx0__
+//@hint chain-start 0
+		let ghost mid = *method;
+		let ghost cur = seq@;
+		proof {
+			assert(seq@.subrange(0, seq@.len() as int) =~= seq@);
+			assert(old(seq)@.subrange(0, seq@.len() as int) =~= old(seq)@);
+		}
+//@hint chain-item 0
+		proof {
+			let i = idx0__ as int;
+			assert(seq@[i] == seq@.subrange(i, seq@.len() as int)[0]);
+			assert(seq@[i] == old(seq)@[i]);
+		}
+//@hint chain-end 0
+		proof {
+			let i = idx0__ as int;
+			assert(cur[i - 1] == cur.subrange(i - 1, cur.len() as int)[0]);
+			assert(cur[i - 1] == old(seq)@[i - 1]);
+			lemma_run_extend(*old(method), old(seq)@.subrange(0, i - 1), cur.subrange(0, i - 1), mid, old(seq)@[i - 1], *method, seq@[i - 1]);
+			assert(old(seq)@.subrange(0, i - 1).push(old(seq)@[i - 1]) =~= old(seq)@.subrange(0, i));
+			assert(cur.subrange(0, i - 1).push(seq@[i - 1]) =~= seq@.subrange(0, i));
+			assert forall|j: int| i <= j < seq@.len() implies seq@[j] == old(seq)@[j] by {
+				assert(cur.subrange(i - 1, cur.len() as int)[j - i + 1] == old(seq)@.subrange(i - 1, cur.len() as int)[j - i + 1]);
+			}
+		}
+//@end
+
 // a freshly constructed instance (seeded with the first input) run over all inputs
 pub open spec fn fresh_run<T, M: Method<Input = T>>(parameters: M::Params, inputs: Seq<T>, outs: Seq<M::Output>, s0: M, s1: M) -> bool {
 	run(s0, inputs, outs, s1) && M::fresh(parameters, &inputs[0], &s0) && s0.inv()
@@ -134,6 +177,50 @@ pub open spec fn fresh_run<T, M: Method<Input = T>>(parameters: M::Params, input
 //@replace inputs.get_initial_value() ==> slice_first(inputs)
 //@replace Self::new(parameters, v)? ==> M::new(parameters, v)?
 //@replace Ok(inputs.call(&mut method)) ==> { let ghost s0 = method; let out = call(inputs, &mut method); let rr: Result<Vec<M::Output>, Error> = Ok(out); proof { assert(fresh_run(parameters, inputs@, rr->Ok_0@, s0, method)); } rr }
+//@end
+
+//@extract src/core/method.rs trait[Method]::apply pub
+//@sig pub fn apply<T, M: Method<Input = T, Output = T>>(this: &mut M, sequence: &mut [T])
+	requires old(this).inv(), inputs_ok::<T, M>(old(sequence)@)
+	ensures final(this).inv(), final(sequence)@.len() == old(sequence)@.len(), run(*old(this), old(sequence)@, final(sequence)@, *final(this)),
+//@replace sequence.apply(self) ==> seq_apply(sequence, this)
+//@end
+
+//@extract src/core/method.rs trait[Method]::new_apply pub
+//@sig pub fn new_apply<T, M: Method<Input = T, Output = T>>(parameters: M::Params, sequence: &mut [T]) -> (r: Result<(), Error>)
+	requires old(sequence)@.len() > 0 ==> M::new_req(parameters, &old(sequence)@[0]), inputs_ok::<T, M>(old(sequence)@)
+	ensures
+		final(sequence)@.len() == old(sequence)@.len(),
+		old(sequence)@.len() == 0 ==> r is Ok,
+		r is Ok && old(sequence)@.len() > 0 ==> exists|s0: M, s1: M| #[trigger] fresh_run(parameters, old(sequence)@, final(sequence)@, s0, s1),
+		r is Err ==> final(sequence)@ == old(sequence)@,
+		old(sequence)@.len() > 0 && M::rejects(parameters) ==> r is Err,
+//@replace seq.get_initial_value() ==> slice_first(seq)
+//@replace Self::new(parameters, initial_value)? ==> M::new(parameters, initial_value)?
+//@replace sequence.apply(&mut m); ==> let ghost s0 = m; seq_apply(sequence, &mut m); proof { assert(fresh_run(parameters, old(sequence)@, sequence@, s0, m)); }
+//@end
+
+// ------------------------------------------------------------------ Method::new_fn (core/method.rs)
+// BoxedFnMethod<M> = Box<dyn FnMut(&M::Input) -> M::Output> holding `move |x| self.next(x)`: opaque here, identified with the
+// instance the closure owns. into_fn's contract is ASSUMED (boxed FnMut closures are outside the verifier's reach); new_fn's body is verified against it.
+#[verifier::external_body]
+#[verifier::reject_recursive_types(M)]
+pub struct BoxedFnMethod<M: Method> { _m: std::marker::PhantomData<M> }
+impl<M: Method> BoxedFnMethod<M> {
+	pub uninterp spec fn state(&self) -> M;
+}
+#[verifier::external_body]
+pub fn into_fn<M: Method>(this: M) -> (r: BoxedFnMethod<M>)
+	ensures r.state() == this
+{ unimplemented!() }
+//@extract src/core/method.rs trait[Method]::new_fn pub
+//@sig pub fn new_fn<M: Method>(params: M::Params, initial_value: &M::Input) -> (r: Result<BoxedFnMethod<M>, Error>)
+	requires M::new_req(params, initial_value)
+	ensures
+		M::rejects(params) ==> r is Err,
+		r is Ok ==> r->Ok_0.state().inv() && M::fresh(params, initial_value, &r->Ok_0.state()),
+//@replace Self::new(params, initial_value)? ==> M::new(params, initial_value)?
+//@replace instance.into_fn() ==> into_fn(instance)
 //@end
 
 // <[T]>::first, as Sequence::get_initial_value uses it
